@@ -34,7 +34,7 @@ Proof.
     rewrite esize_ability. lia.
   - unfold mu. cbn [with_q s_q s_acts q_insert q_pending]. rewrite qsize_app. cbn [qsize]. unfold tsize. cbn [t_body esize]. lia.
   - destruct (zget (s_life s) u) as [[]|]; cbn; unfold mu; cbn; lia.
-  - destruct (zget (s_life s) u); cbn; unfold mu; cbn; lia.
+  - destruct (zget (s_life s) u) as [[| | |]|]; cbn; unfold mu; cbn; lia.
   - destruct (zget (s_cls s) u); cbn; unfold mu; cbn; lia.
 Qed.
 
@@ -90,10 +90,11 @@ Proof.
   inversion H. reflexivity.
 Qed.
 
-Lemma mu_iter : forall s s' stopped, J s -> iter s = Some (s', stopped) -> mu s' < mu s.
+Lemma mu_iter : forall s s', J s -> iter s = Some (s', false) -> mu s' < mu s.
 Proof.
-  intros s s' stopped [Hq _] H. unfold iter in H.
+  intros s s' [Hq _] H. unfold iter in H.
   destruct (pop_min (s_q s)) as [[t q']|] eqn:E; [|discriminate].
+  destruct (exit_reason s); [discriminate|].
   destruct (pop_min_spec _ _ _ Hq E) as [Hin _].
   assert (Hsz : mu s = tsize t + mu (with_q s q')).
   { unfold mu. cbn [with_q s_q s_acts]. rewrite (pop_min_pending _ _ _ E).
@@ -101,14 +102,14 @@ Proof.
   assert (Ht : 1 <= tsize t) by (unfold tsize; lia).
   destruct (lstate_eqb (life_of (with_q s q') (t_src t)) LDead).
   { inversion H; subst. change (mu (record (with_q s q') _)) with (mu (with_q s q')). lia. }
+  destruct (negb (on_field (with_q s q') (t_src t))).
+  { inversion H; subst. change (mu (record (with_q s q') _)) with (mu (with_q s q')). lia. }
   destruct (has_flag (with_q s q') (t_src t) (t_flags t)).
   { inversion H; subst. change (mu (record (with_q s q') _)) with (mu (with_q s q')). lia. }
   pose proof (mu_execute (with_q s q') t) as He.
   destruct (execute (with_q s q') t) as [s1 f]. cbn [fst] in He.
   assert (Hdc : mu (death_check (record s1 (mkE t f))) = mu s1) by reflexivity.
-  destruct (exit_reason (death_check (record s1 (mkE t f)))); inversion H; subst.
-  - change (mu (emit (death_check (record s1 (mkE t f))) _)) with (mu (death_check (record s1 (mkE t f)))). lia.
-  - lia.
+  destruct (exit_reason (death_check (record s1 (mkE t f)))); inversion H; subst. lia.
 Qed.
 
 Theorem drain_has_enough_fuel : forall fuel s, J s -> mu s < fuel -> drain fuel s <> None.
@@ -116,6 +117,6 @@ Proof.
   induction fuel as [|n IH]; intros s HJ Hf; [lia|]. cbn [drain].
   destruct (iter s) as [[s1 [|]]|] eqn:E; try discriminate.
   apply IH.
-  - destruct (iter_spec _ _ _ HJ E) as [t [q' [_ [_ [_ [_ [_ [_ HJ1]]]]]]]]. exact HJ1.
-  - pose proof (mu_iter _ _ _ HJ E). lia.
+  - eapply iter_J; eauto.
+  - pose proof (mu_iter _ _ HJ E). lia.
 Qed.
